@@ -23,7 +23,7 @@ PROPERTY = 'C12'
 LEVEL = 'model_checking'
 BOUNDS = {'quick': {'puts': 2, 'modes': ['wait', 'cancel', 'start'], 'guard_time': [None, 'symbolic 0<g<=10'],
                     'durations': 'symbolic 0<d<=100', 'gaps': 'symbolic 0<=gap<=100', 'stop_timeout': 1000},
-          'thorough': {'puts': 3, 'note': '3 puts without stop_data / late ties; 2 puts for the stop_data and late-tie variants', 'modes': ['wait', 'cancel', 'start'], 'guard_time': [None, 'symbolic 0<g<=10'],
+          'thorough': {'puts': 3, 'note': '3 puts without stop_data / late ties (guard_time only in wait mode); 2 puts for the stop_data, late-tie and guarded cancel/start variants', 'modes': ['wait', 'cancel', 'start'], 'guard_time': [None, 'symbolic 0<g<=10'],
                        'durations': 'symbolic 0<d<=100', 'gaps': 'symbolic 0<=gap<=100', 'stop_timeout': 1000}}
 OUTSIDE = ["pending work longer than stop_timeout (the time-out path of _run_tasks)", "more puts than the bound",
            "same-instant orders other than heapq's", "InExecutor / real threads"]
@@ -259,7 +259,7 @@ def shards(tier):
                 for late in (False, True):
                     if late and (mode == 'start' or (tier == 'quick' and sd)):
                         continue
-                    nn = n if (n <= 2 or (not sd and not late and not (wg and mode == 'cancel'))) else 2
+                    nn = n if (n <= 2 or (not sd and not late and not (wg and mode in ('cancel', 'start')))) else 2
                     out.append({'name': f'{mode} guard={wg} puts={nn} stop_data={sd}' + (' late-ties' if late else ''),
                                 'scenario': 'scen_oa',
                                 'params': {'mode': mode, 'with_guard': wg, 'nput': nn, 'stop_data': sd, 'late': late},
